@@ -470,8 +470,17 @@ def rule_links(ctx, px):
            "" if ok else "the base path is computed (property / expression) instead of stored: for a namespace whose folder equals the base - the empty root of "
            "`--generate-support only` - the derived value lies outside the output directory", init_ns.node.lineno)
     # traversal: generators yield own entries and recurse into every nested namespace, unconditionally
-    for gname in ("Namespace._recursive_data_type_generator", "Namespace._recursive_namespace_generator", "Namespace._recursive_data_type_and_namespace_generator"):
-        g = px.func(NS, gname)
+    # found by role: what the three public enumerations `yield from` (possibly one shared, parametrised walker)
+    ns_cls = px.cls(NS, "Namespace")
+    for pub in ("get_all_datatypes", "get_all_namespaces", "get_all_types"):
+        pf = ns_cls.methods.get(pub)
+        if pf is None:
+            raise AnalysisError(f"anchor missing: Namespace.{pub}")
+        callee = [n.value.func.attr for n in ast.walk(pf.node) if isinstance(n, ast.YieldFrom) and isinstance(n.value, ast.Call)
+                  and isinstance(n.value.func, ast.Attribute) and n.value.func.attr in ns_cls.methods]
+        if len(callee) != 1:
+            raise AnalysisError(f"anchor missing: the generator Namespace.{pub} delegates to")
+        g = ns_cls.methods[callee[0]]
         rec = [n for n in ast.walk(g.node) if isinstance(n, ast.YieldFrom) and isinstance(n.value, ast.Call) and getattr(n.value.func, "attr", "") == g.name]
         ok = bool(rec)
         if ok:
@@ -481,7 +490,41 @@ def rule_links(ctx, px):
                 lp = pm.get(id(lp))
             ok = isinstance(lp, ast.For) and (bool(_calls(lp.iter, "get_nested_namespaces")) or "_nested_namespaces" in _attrs(lp.iter)) and \
                 not any(isinstance(x, (ast.If, ast.Continue, ast.Break)) for x in ast.walk(lp)) and not pyfront.guard_terms(pyfront.guards_of(g.node, rec[0]) or ())
-        ctx.ob(R, m.rel, f"{g.short} :: recurses into every nested namespace, unconditionally", ok, "", g.node.lineno)
+        ctx.ob(R, m.rel, f"Namespace.{pub} :: its generator recurses into every nested namespace, unconditionally", ok, f"generator {g.short}", g.node.lineno)
+        # what the walker yields for this enumeration: own entries switched by constant flags of the public method only
+        _own_entries(ctx, R, m, pub, pf, g)
+
+
+def _own_entries(ctx, R, m, pub, pf, g):
+    """get_all_datatypes / get_all_types yield every nested type of every visited namespace, get_all_namespaces / get_all_types the namespace itself:
+    in the walker each such yield is unconditional or guarded by a parameter for which this public method passes the constant True."""
+    call = [n.value for n in ast.walk(pf.node) if isinstance(n, ast.YieldFrom) and isinstance(n.value, ast.Call)][0]
+    params = [a.arg for a in g.node.args.args]
+    if params and params[0] in ("self", "cls"):
+        params = params[1:]
+    bound = {}
+    for i_, a in enumerate(call.args):
+        if i_ < len(params):
+            bound[params[i_]] = a
+    for k in call.keywords:
+        if k.arg:
+            bound[k.arg] = k.value
+    want = {"get_all_datatypes": ["types"], "get_all_namespaces": ["namespace"], "get_all_types": ["types", "namespace"]}[pub]
+    have = set()
+    for st, gd in pyfront.walk_guarded(g.node.body):
+        for y in [n for n in ast.walk(st) if isinstance(n, (ast.Yield, ast.YieldFrom))] if isinstance(st, (ast.Expr, ast.For)) else []:
+            txt = ast.unparse(y)
+            kind = "types" if ("get_nested_types" in ast.unparse(st) or "_data_type_to_outputs" in ast.unparse(st)) else \
+                ("namespace" if "_output_path" in txt else None)
+            if kind is None or (isinstance(y, ast.YieldFrom) and getattr(getattr(y.value, "func", None), "attr", "") == g.name):
+                continue
+            terms = pyfront.guard_terms(gd)
+            live = all(p_ and e_ in bound and isinstance(bound[e_], ast.Constant) and bound[e_].value is True for e_, p_ in terms)
+            if live:
+                have.add(kind)
+    ok = set(want) <= have
+    ctx.ob(R, m.rel, f"Namespace.{pub} :: yields {' and '.join(want)} of every visited namespace", ok,
+           "" if ok else f"reaches only {sorted(have)} with the arguments it passes", g.node.lineno)
 
 
 def _every_type_registered(ctx, R, m, bt, px):
